@@ -284,8 +284,8 @@ def ram_stores_independent():
     NFOLDS.update(n=2, presplit=False, single=False, uea=False, features=None, cols=["dim_0", "aux"])
     CALLS.update(n=0, crash=0, log=[])
     try:
-        def bench(cv):
-            res = RAMResults()
+        def bench(cv, res=None):
+            res = res if res is not None else RAMResults()
             Orchestrator(tasks=[TSCTask(target="class_val")], datasets=[RAMDataset(dataset(1), name="d1")],
                          strategies=[TSCStrategy(make_classifier()(sid=1), name="s1")], cv=cv, results=res).fit_predict(
                 save_fitted_strategies=False)
@@ -304,6 +304,14 @@ def ram_stores_independent():
         after = read(first, 2)
         if after != before:
             return "the first store returned %s before, %s after another store was filled" % (before[:1], after[:1])
+        # the same store used for a second run (other folds): an in-memory store recomputes, its records are the new run's
+        cv2 = KFold(n_splits=2, shuffle=True, random_state=1)
+        bench(cv2, first)
+        again = read(first, 2)
+        want2 = [("s1", "d1", f, list(te), [(100 + p) % 2 for p in te], honest(1, 1, list(tr), list(te)))
+                 for f, (tr, te) in enumerate(cv2.split(np.arange(n_of(1))))]
+        if again != want2:
+            return "after a second run into the same in-memory store it returns %s, the second run stored %s" % (again[:1], want2[:1])
         return None
     finally:
         NFOLDS.clear()
